@@ -125,7 +125,7 @@ func (p *Prog) contexts() *ctxInfo {
 		if rules[f] == nil {
 			rules[f] = map[int]ctxRule{}
 		}
-		rules[f][r.Arg] = r
+		rules[f][fixArg(f, r.Arg)] = r
 	}
 	add := func(f *ssa.Function, c ctxSet, why string) bool {
 		if f == nil || c == 0 {
@@ -167,8 +167,12 @@ func (p *Prog) contexts() *ctxInfo {
 		"(*nats.Client).onTimeout":        ctxTIMER,
 		"(*rescache.Cache).mqUnsubscribe": ctxTIMER,
 	}
+	specialFn := map[*ssa.Function]bool{}
 	for n, c := range special {
 		add(p.Fn(n), c, "worker/timer root")
+		if f := p.Fn(n); f != nil {
+			specialFn[f] = true
+		}
 	}
 	// closure -> context by the combinator it is handed to
 	closureArg := func(v ssa.Value) *ssa.Function {
@@ -234,7 +238,7 @@ func (p *Prog) contexts() *ctxInfo {
 				// go statement: target runs on a fresh goroutine (worker roots keep their own context)
 				if isGo {
 					if tf := com.StaticCallee(); tf != nil && p.isRepoFn(tf) {
-						if _, isSpecial := special[fnName(tf)]; !isSpecial {
+						if !specialFn[tf] {
 							if add(tf, ctxGO, "go statement in "+fnName(f)) {
 								changed = true
 							}
@@ -272,7 +276,7 @@ func (p *Prog) contexts() *ctxInfo {
 				// static / invoke edges
 				if sf := com.StaticCallee(); sf != nil {
 					if p.isRepoFn(sf) {
-						if _, isSpecial := special[fnName(sf)]; !isSpecial {
+						if !specialFn[sf] {
 							if add(sf, cur, "called from "+fnName(f)) {
 								changed = true
 							}
@@ -430,10 +434,11 @@ func ruleConfinement(c *Ctx) {
 			continue
 		}
 		fn := p.SSA.FuncValue(tf)
-		if fn == nil || len(fn.Blocks) == 0 || r.Arg >= len(fn.Params) {
+		argIdx := fixArg(tf, r.Arg)
+		if fn == nil || len(fn.Blocks) == 0 || argIdx >= len(fn.Params) {
 			continue
 		}
-		prm := fn.Params[r.Arg]
+		prm := fn.Params[argIdx]
 		// the parameter's cell and every free variable bound to it
 		holders := map[ssa.Value]bool{prm: true}
 		for changed := true; changed; {
@@ -483,13 +488,16 @@ func ruleConfinement(c *Ctx) {
 	}
 	// one worker per connection
 	n := 0
+	worker := p.Fn("(*server.wsConn).outputWorker")
+	ctor := p.Fn("(*server.Service).newWSConn")
 	for _, f := range p.Repo {
 		for _, in := range instrsOf(f) {
 			if g, ok := in.(*ssa.Go); ok {
-				if tf := g.Common().StaticCallee(); tf != nil && fnName(tf) == "(*server.wsConn).outputWorker" {
+				if tf := g.Common().StaticCallee(); tf != nil && worker != nil && tf == worker {
 					n++
 					c.inst(1)
-					c.check(fnName(f) == "(*server.Service).newWSConn", fnName(f), "one output worker per connection", p.InstrPos(in), "started in newWSConn", "a second worker for a connection is started")
+					_, owned := p.ownedBy(f, func(nm string) bool { return ctor != nil && nm == fnName(ctor) })
+					c.check(owned, fnName(f), "one output worker per connection", p.InstrPos(in), "started in newWSConn", "a second worker for a connection is started")
 				}
 			}
 		}
